@@ -4,6 +4,7 @@ import numpy as np
 from optiland.coatings import BaseCoatingPolarized
 from optiland.surfaces.standard_surface import Surface
 from optiland.surfaces.surface_factory import SurfaceFactory
+from optiland.geometries import EvenAsphere
 
 
 class SurfaceGroup:
@@ -241,6 +242,8 @@ class SurfaceGroup:
         for surf in surfs_inverted:
             # scale radii by -1
             surf.geometry.radius *= -1
+            if isinstance(surf.geometry, EvenAsphere):
+                surf.geometry.c = [-c for c in surf.geometry.c]
 
             # invert z position
             surf.geometry.cs.z = z_shift - surf.geometry.cs.z
